@@ -3,6 +3,7 @@ package simio
 import (
 	"encoding/binary"
 	"fmt"
+	"os"
 
 	"verif/sim/core"
 )
@@ -124,6 +125,29 @@ var EnumKinds = []string{"truncate", "bitflip", "word_set", "byte_set"}
 // from s instead (returns exhaustive=false).
 func Enumerate(kind string, n int, s *core.Source, visit func(f Fault) bool) (count int, exhaustive bool) {
 	exhaustive = true
+	if os.Getenv("VERIF_C05_NOCAP") == "" && (kind == "word_set" && n > 200 || kind == "byte_set" && n > 400) {
+		// large blobs: every offset still gets a fault, but with 3 drawn values instead of all
+		// (keeps a run under a second so that the hang watchdog can be tight)
+		exhaustive = false
+		for p := 0; p < n; p++ {
+			for k := 0; k < 3; k++ {
+				var f Fault
+				if kind == "word_set" {
+					if p+4 > n {
+						continue
+					}
+					f = Fault{Kind: kind, Pos: p, Val: uint64(WordSetValues[s.Intn(len(WordSetValues), "wv")]), BE: s.Bool("be")}
+				} else {
+					f = Fault{Kind: kind, Pos: p, Val: uint64(ByteSetValues[s.Intn(len(ByteSetValues), "bv")])}
+				}
+				count++
+				if !visit(f) {
+					return
+				}
+			}
+		}
+		return
+	}
 	switch kind {
 	case "truncate":
 		for k := 0; k < n; k++ {
